@@ -21,7 +21,9 @@ Record sstate := {
 Definition upd (f : nat -> list nat) (p : nat) (v : list nat) : nat -> list nat :=
   fun q => if Nat.eqb q p then v else f q.
 
-Inductive sev := SetOpt (o : option spec) | Finish (r : nat).
+(* SetOptBadFilter o: ONE options.update carrying save_stream_file = o together with a
+   save_stream_filter that does not parse *)
+Inductive sev := SetOpt (o : option spec) | SetOptBadFilter (o : option spec) | Finish (r : nat).
 
 Section Save.
   Variable openable : nat -> bool.
@@ -67,6 +69,12 @@ Section Save.
         (match configure s3 with Some s4 => s4 | None => s3 end, true)
     end.
 
+  (* the same update with an invalid save_stream_filter: configure parses the filter FIRST and raises
+     OptionsError before it looks at the file option; then the rollback as above *)
+  Definition set_option_bad_filter (o : option spec) (s : sstate) : sstate * bool :=
+    let s3 := with_opt (with_opt s o) (opt s) in
+    (match configure s3 with Some s4 => s4 | None => s3 end, true).
+
   (* the end hook of a flow: Save.save_flow *)
   Definition save_flow (r : nat) (s : sstate) : sstate :=
     match strm s with
@@ -86,6 +94,7 @@ Section Save.
   Definition step (s : sstate) (e : sev) : sstate * bool :=
     match e with
     | SetOpt o => set_option o s
+    | SetOptBadFilter o => set_option_bad_filter o s
     | Finish r => (save_flow r s, false)
     end.
 
@@ -105,6 +114,7 @@ Section Save.
         else if openable (sp_path sp)
              then reference r (Some sp) (upd f (sp_path sp) (if sp_append sp then f (sp_path sp) else []))
              else reference r c f
+    | SetOptBadFilter _ :: r => reference r c f
     | Finish x :: r =>
         match c with
         | Some c0 => reference r c (upd f (sp_path c0) (f (sp_path c0) ++ [x]))
